@@ -40,6 +40,7 @@ Qed.
 Section Net.
 Variable ans : Type.
 Variable join : list ans -> ans.
+Variable drop : ans.                  (* the answer a closed node gives: the dropped-packet error *)
 Variable N : nat.                      (* nodes are 0 .. N-1 *)
 
 Definition row := list (nat * option ans).
@@ -57,15 +58,18 @@ Record net := mknet {
   n_done : nat -> list nat;            (* history: ids each node answered, in order *)
   n_ans : list (nat * ans);            (* history: the answer each packet got, newest first *)
   n_der : list (nat * ans * list nat); (* history: own result and derived packets of each finished action *)
-  n_out : list (nat * ans)             (* answers delivered to the outside, newest first *)
+  n_out : list (nat * ans);            (* answers delivered to the outside, newest first *)
+  n_closed : nat -> bool               (* nodes that have been closed *)
 }.
 
-Definition net0 : net := mknet (fun _ => []) 0 (fun _ => []) (fun _ => []) [] [] [].
+Definition net0 : net := mknet (fun _ => []) 0 (fun _ => []) (fun _ => []) [] [] [] (fun _ => false).
 
 Inductive lab :=
 | LIn (n : nat)                                   (* a request from outside reaches node n *)
 | LProc (n : nat) (own : ans) (tgts : list nat)   (* the action of node n finishes on its oldest unfinished request *)
-| LAns (n : nat).                                 (* node n answers its oldest request *)
+| LAns (n : nat)                                  (* node n answers its oldest request *)
+| LClose (n : nat)                                (* node n is closed (teardown) *)
+| LDrop (n : nat).                                (* a closed node answers its oldest request with the dropped-packet error *)
 
 Definition fresh_row (ids : list nat) : row := map (fun i => (i, None)) ids.
 
@@ -97,12 +101,23 @@ Definition answers (rw : row) : list ans := flat_map (fun s => match snd s with 
 Definition complete (rw : row) : bool := forallb (fun s => match snd s with Some _ => true | None => false end) rw.
 Definition result (own : ans) (rw : row) : ans := match rw with [] => own | _ => join (answers rw) end.
 
+(* node n hands the answer a to its oldest request r *)
+Definition answer (st : net) (n : nat) (r : req) (rest : list req) (a : ans) : net :=
+  let q1 := upd (n_q st) n rest in
+  mknet (match q_from r with
+         | Some (m, rq) => upd q1 m (map (fill rq (q_id r) a) (q1 m))
+         | None => q1 end)
+        (n_next st) (n_arr st) (upd (n_done st) n (n_done st n ++ [q_id r]))
+        ((q_id r, a) :: n_ans st) (n_der st)
+        (match q_from r with None => (q_id r, a) :: n_out st | Some _ => n_out st end)
+        (n_closed st).
+
 Definition step (st : net) (l : lab) : option net :=
   match l with
   | LIn n =>
       if Nat.ltb n N then
         Some (mknet (upd (n_q st) n (n_q st n ++ [mkreq (n_next st) None None])) (S (n_next st))
-                    (upd (n_arr st) n (n_arr st n ++ [n_next st])) (n_done st) (n_ans st) (n_der st) (n_out st))
+                    (upd (n_arr st) n (n_arr st n ++ [n_next st])) (n_done st) (n_ans st) (n_der st) (n_out st) (n_closed st))
       else None
   | LProc n own tgts =>
       if forallb (fun t => Nat.ltb n t && Nat.ltb t N) tgts then
@@ -111,7 +126,7 @@ Definition step (st : net) (l : lab) : option net :=
         | Some (rid, qn) =>
             let acc := fold_left (send (n, rid)) (combine tgts ids) (upd (n_q st) n qn, n_arr st) in
             Some (mknet (fst acc) (n_next st + length tgts) (snd acc) (n_done st) (n_ans st)
-                        ((rid, own, ids) :: n_der st) (n_out st))
+                        ((rid, own, ids) :: n_der st) (n_out st) (n_closed st))
         | None => None
         end
       else None
@@ -119,21 +134,20 @@ Definition step (st : net) (l : lab) : option net :=
       match n_q st n with
       | r :: rest =>
           match q_st r with
-          | Some (own, rw) =>
-              if complete rw then
-                let a := result own rw in
-                let q1 := upd (n_q st) n rest in
-                Some (mknet (match q_from r with
-                             | Some (m, rq) => upd q1 m (map (fill rq (q_id r) a) (q1 m))
-                             | None => q1 end)
-                            (n_next st) (n_arr st) (upd (n_done st) n (n_done st n ++ [q_id r]))
-                            ((q_id r, a) :: n_ans st) (n_der st)
-                            (match q_from r with None => (q_id r, a) :: n_out st | Some _ => n_out st end))
-              else None
+          | Some (own, rw) => if complete rw then Some (answer st n r rest (result own rw)) else None
           | None => None
           end
       | [] => None
       end
+  | LClose n =>
+      Some (mknet (n_q st) (n_next st) (n_arr st) (n_done st) (n_ans st) (n_der st) (n_out st) (upd (n_closed st) n true))
+  | LDrop n =>
+      if n_closed st n then
+        match n_q st n with
+        | r :: rest => Some (answer st n r rest drop)
+        | [] => None
+        end
+      else None
   end.
 
 (* a run: labels that are not enabled are skipped *)
@@ -142,6 +156,7 @@ Definition run (ls : list lab) : net := fold_left step' ls net0.
 
 (* ---- answers are justified ---- *)
 Definition justified (der : list (nat * ans * list nat)) (earlier : list (nat * ans)) (id : nat) (a : ans) : Prop :=
+  a = drop \/
   exists own kids, In (id, own, kids) der /\
     ((kids = [] /\ a = own) \/
      (kids <> [] /\ exists xs, Forall2 (fun k x => In (k, x) earlier) kids xs /\ a = join xs)).
@@ -309,14 +324,12 @@ Proof.
   - intros _. eauto.
 Qed.
 
-Lemma step_ans st n st' : Inv st -> step st (LAns n) = Some st' -> Inv st'.
+Lemma answer_inv st n r rest a :
+  Inv st -> n_q st n = r :: rest -> justified (n_der st) (n_ans st) (q_id r) a -> Inv (answer st n r rest a).
 Proof.
-  intros I H. cbn [step] in H.
-  destruct (n_q st n) as [|r rest] eqn:Q; [discriminate|].
-  destruct (q_st r) as [[own rw]|] eqn:S; [|discriminate].
-  destruct (complete rw) eqn:C; [|discriminate]. injection H as <-.
+  intros I Q J. unfold answer.
   destruct I as [Ia If In_ Ib Ik Ir Ians].
-  set (a := result own rw). set (q1 := upd (n_q st) n rest).
+  set (q1 := upd (n_q st) n rest).
   set (q' := match q_from r with Some (m, rq) => upd q1 m (map (fill rq (q_id r) a) (q1 m)) | None => q1 end).
   assert (Q1 : forall x c, In c (n_q st x) -> (x = n /\ c = r) \/ In c (q1 x)).
   { intros x c Hc. unfold q1, upd. destruct (Nat.eqb x n) eqn:E; auto. apply Nat.eqb_eq in E. subst x.
@@ -338,7 +351,7 @@ Proof.
   { intros x c0 Hc0. unfold q'. destruct (q_from r) as [[m rq]|]; [|eauto]. unfold upd at 1.
     destruct (Nat.eqb x m) eqn:E; [|eauto]. apply Nat.eqb_eq in E. subst m.
     exists (fill rq (q_id r) a c0). split; [apply in_map, Hc0|]. split; [apply fill_id|apply fill_from]. }
-  constructor; cbn [n_q n_next n_arr n_done n_ans n_der n_out]; fold a; fold q1; fold q'.
+  constructor; cbn [n_q n_next n_arr n_done n_ans n_der n_out]; fold q1; fold q'.
   - intros x. rewrite F1. unfold q1, upd. destruct (Nat.eqb x n) eqn:E.
     + apply Nat.eqb_eq in E. subst x. rewrite Ia, Q. cbn. rewrite <- app_assoc. reflexivity.
     + apply Ia.
@@ -370,14 +383,33 @@ Proof.
         { injection Ea as ->. left. reflexivity. }
         { right. auto. }
       * split; auto. intros p a' Hp. right. auto.
-  - split; [|exact Ians].
-    assert (Hr : In r (n_q st n)) by (rewrite Q; left; reflexivity).
-    destruct (Ir n r own rw Hr S) as [A B]. exists own, (map fst rw). split; auto.
-    destruct rw as [|s rw0] eqn:Erw.
-    + left. auto.
-    + right. split; [discriminate|]. exists (answers (s :: rw0)). split; [|reflexivity].
-      apply complete_forall2; auto.
+  - split; [exact J|exact Ians].
 Qed.
+
+Lemma step_ans st n st' : Inv st -> step st (LAns n) = Some st' -> Inv st'.
+Proof.
+  intros I H. cbn [step] in H.
+  destruct (n_q st n) as [|r rest] eqn:Q; [discriminate|].
+  destruct (q_st r) as [[own rw]|] eqn:S; [|discriminate].
+  destruct (complete rw) eqn:C; [|discriminate]. injection H as <-.
+  apply answer_inv; auto. right.
+  assert (Hr : In r (n_q st n)) by (rewrite Q; left; reflexivity).
+  destruct (i_rows _ I n r own rw Hr S) as [A B]. exists own, (map fst rw). split; auto.
+  destruct rw as [|s rw0] eqn:Erw.
+  - left. auto.
+  - right. split; [discriminate|]. exists (answers (s :: rw0)). split; [|reflexivity].
+    apply complete_forall2; auto.
+Qed.
+
+Lemma step_drop st n st' : Inv st -> step st (LDrop n) = Some st' -> Inv st'.
+Proof.
+  intros I H. cbn [step] in H. destruct (n_closed st n); [|discriminate].
+  destruct (n_q st n) as [|r rest] eqn:Q; [discriminate|]. injection H as <-.
+  apply answer_inv; auto. left. reflexivity.
+Qed.
+
+Lemma step_close st n st' : Inv st -> step st (LClose n) = Some st' -> Inv st'.
+Proof. intros [Ia If In_ Ib Ik Ir Ians] H. cbn [step] in H. injection H as <-. constructor; auto. Qed.
 
 (* ---- finishing an action ---- *)
 Lemma nodup_app_disj (l1 l2 : list nat) : NoDup l1 -> NoDup l2 -> (forall x, In x l1 -> ~ In x l2) -> NoDup (l1 ++ l2).
@@ -394,7 +426,7 @@ Lemma fresh_row_in ids p o : In (p, o) (fresh_row ids) -> o = None /\ In p ids.
 Proof. unfold fresh_row. intros H. apply in_map_iff in H as [i [E H]]. injection E as <- <-. auto. Qed.
 
 Lemma justified_mono der der' l id a : (forall x, In x der -> In x der') -> justified der l id a -> justified der' l id a.
-Proof. intros M [own [kids [A B]]]. exists own, kids. auto. Qed.
+Proof. intros M [D|[own [kids [A B]]]]; [left; exact D|]. right. exists own, kids. auto. Qed.
 
 Lemma ans_ok_mono der der' l : (forall x, In x der -> In x der') -> ans_ok der l -> ans_ok der' l.
 Proof.
@@ -472,7 +504,7 @@ Qed.
 
 (* ---- every reachable state ---- *)
 Lemma step_inv st l st' : Inv st -> step st l = Some st' -> Inv st'.
-Proof. destruct l; [apply step_in|apply step_proc|apply step_ans]. Qed.
+Proof. destruct l; [apply step_in|apply step_proc|apply step_ans|apply step_close|apply step_drop]. Qed.
 
 Lemma step'_inv st l : Inv st -> Inv (step' st l).
 Proof. intros I. unfold step'. destruct (step st l) eqn:E; auto. eapply step_inv; eauto. Qed.
@@ -536,6 +568,115 @@ Proof.
     - apply Hm, HA. }
   split; auto. pose proof (i_arr _ I n) as A. rewrite E in A. cbn in A. rewrite app_nil_r in A.
   split; auto. rewrite <- A. apply (i_nodup _ I).
+Qed.
+
+(* ---- teardown (C03 at the level of a workflow): close every node, at any point of any run, and let the closed nodes
+   answer what they hold with the dropped-packet error: every request that ever arrived anywhere is answered
+   exactly once, and nothing stays pending ---- *)
+Fixpoint iter {A} (k : nat) (f : A -> A) (x : A) : A := match k with 0 => x | S k' => iter k' f (f x) end.
+
+Definition close_all (st : net) : net := fold_left step' (map LClose (seq 0 N)) st.
+Definition drop_node (st : net) (n : nat) : net := iter (length (n_q st n)) (fun s => step' s (LDrop n)) st.
+Definition teardown (st : net) : net := fold_left drop_node (seq 0 N) (close_all st).
+
+Lemma answer_len st n r rest a x :
+  n_q st n = r :: rest ->
+  length (n_q (answer st n r rest a) x) = if Nat.eqb x n then length rest else length (n_q st x).
+Proof.
+  intros Q. unfold answer. cbn [n_q].
+  assert (E : forall y, length (upd (n_q st) n rest y) = if Nat.eqb y n then length rest else length (n_q st y)).
+  { intros y. unfold upd. destruct (Nat.eqb y n); reflexivity. }
+  destruct (q_from r) as [[m rq]|]; [|apply E].
+  unfold upd at 1. destruct (Nat.eqb x m) eqn:Em; [|apply E].
+  apply Nat.eqb_eq in Em. subst m. rewrite map_length. apply E.
+Qed.
+
+Lemma answer_closed st n r rest a : n_closed (answer st n r rest a) = n_closed st.
+Proof. reflexivity. Qed.
+
+Lemma close_all_spec : forall ns st, Inv st ->
+  let st' := fold_left step' (map LClose ns) st in
+  Inv st' /\ (forall x, n_q st' x = n_q st x) /\ (forall x, n_arr st' x = n_arr st x) /\
+  (forall x, In x ns \/ n_closed st x = true -> n_closed st' x = true).
+Proof.
+  induction ns as [|n ns IH]; intros st I; cbn [map fold_left]; cbv zeta.
+  - split; [exact I|]. split; [reflexivity|]. split; [reflexivity|]. intros x [[]|H]; exact H.
+  - assert (I1 : Inv (step' st (LClose n))) by (apply step'_inv, I).
+    destruct (IH _ I1) as [A [B [C D]]]. split; auto. split; [|split].
+    + intros x. rewrite B. reflexivity.
+    + intros x. rewrite C. reflexivity.
+    + intros x Hx. apply D. destruct Hx as [[<-|Hx]|Hx]; auto; right; cbn; unfold upd.
+      * rewrite Nat.eqb_refl. reflexivity.
+      * destruct (Nat.eqb x n); auto.
+Qed.
+
+Lemma drop_iter : forall k st n, Inv st -> n_closed st n = true -> length (n_q st n) = k ->
+  let st' := iter k (fun s => step' s (LDrop n)) st in
+  Inv st' /\ n_q st' n = [] /\ (forall x, x <> n -> length (n_q st' x) = length (n_q st x)) /\
+  n_closed st' = n_closed st /\ (forall x, n_arr st' x = n_arr st x).
+Proof.
+  induction k as [|k IH]; intros st n I Cn L; cbn [iter]; cbv zeta.
+  - split; [exact I|]. split; [destruct (n_q st n); [reflexivity|discriminate]|]. split; [reflexivity|]. split; reflexivity.
+  - destruct (n_q st n) as [|r rest] eqn:Q; [discriminate|].
+    assert (E : step' st (LDrop n) = answer st n r rest drop).
+    { unfold step'. cbn [step]. rewrite Cn, Q. reflexivity. }
+    rewrite E.
+    assert (I1 : Inv (answer st n r rest drop)) by (apply answer_inv; auto; left; reflexivity).
+    assert (L1 : length (n_q (answer st n r rest drop) n) = k).
+    { rewrite (answer_len st n r rest drop n Q), Nat.eqb_refl. cbn in L. lia. }
+    destruct (IH _ n I1 Cn L1) as [A [B [C [D F]]]]. split; auto. split; auto. split; [|split; auto].
+    intros x Hx. rewrite (C x Hx), (answer_len st n r rest drop x Q).
+    apply Nat.eqb_neq in Hx. rewrite Hx. reflexivity.
+Qed.
+
+Lemma drop_nodes : forall ns st, Inv st -> (forall x, In x ns -> n_closed st x = true) -> NoDup ns ->
+  let st' := fold_left drop_node ns st in
+  Inv st' /\ (forall x, In x ns -> n_q st' x = []) /\
+  (forall x, ~ In x ns -> length (n_q st' x) = length (n_q st x)) /\ (forall x, n_arr st' x = n_arr st x).
+Proof.
+  induction ns as [|n ns IH]; intros st I Cl Nd; cbn [fold_left]; cbv zeta.
+  - split; [exact I|]. split; [intros x []|]. split; reflexivity.
+  - inversion Nd as [|? ? Hn Hd]; subst.
+    pose proof (drop_iter (length (n_q st n)) st n I (Cl n (or_introl eq_refl)) eq_refl) as P. cbv zeta in P.
+    change (iter (length (n_q st n)) (fun s => step' s (LDrop n)) st) with (drop_node st n) in P.
+    destruct P as [A [B [C [D F]]]].
+    assert (Cl1 : forall x, In x ns -> n_closed (drop_node st n) x = true).
+    { intros x Hx. rewrite D. apply Cl. right. exact Hx. }
+    destruct (IH _ A Cl1 Hd) as [A2 [B2 [C2 F2]]]. split; auto. split; [|split].
+    + intros x [<-|Hx]; [|apply B2, Hx].
+      assert (L : length (n_q (fold_left drop_node ns (drop_node st n)) n) = 0) by (rewrite (C2 n Hn), B; reflexivity).
+      destruct (n_q (fold_left drop_node ns (drop_node st n)) n); [reflexivity|discriminate L].
+    + intros x Hx. rewrite C2 by (intros H; apply Hx; right; exact H). apply C. intros ->. apply Hx. left. reflexivity.
+    + intros x. rewrite F2. apply F.
+Qed.
+
+Theorem teardown_releases_all st :
+  Inv st ->
+  let st' := teardown st in
+  Inv st' /\ forall n, n_q st' n = [] /\ n_done st' n = n_arr st n /\ NoDup (n_done st' n).
+Proof.
+  intros I. cbv zeta. unfold teardown.
+  destruct (close_all_spec (seq 0 N) st I) as [A [B [C D]]]. fold (close_all st) in A, B, C, D.
+  assert (Cl : forall x, In x (seq 0 N) -> n_closed (close_all st) x = true) by (intros x Hx; apply D; auto).
+  destruct (drop_nodes (seq 0 N) (close_all st) A Cl (seq_NoDup N 0)) as [A2 [B2 [C2 F2]]].
+  split; auto. intros n.
+  assert (E : n_q (fold_left drop_node (seq 0 N) (close_all st)) n = []).
+  { destruct (Nat.lt_ge_cases n N) as [Hlt|Hge].
+    - apply B2, in_seq. lia.
+    - apply (i_bound _ A2), Hge. }
+  split; auto. pose proof (i_arr _ A2 n) as Ar. rewrite E in Ar. cbn in Ar. rewrite app_nil_r in Ar.
+  split.
+  - rewrite <- Ar, F2, C. reflexivity.
+  - rewrite <- Ar. apply (i_nodup _ A2).
+Qed.
+
+(* at any point of any run *)
+Theorem teardown_any_run ls :
+  let st := run ls in
+  let st' := teardown st in
+  (forall n, n_q st' n = [] /\ n_done st' n = n_arr st n /\ NoDup (n_done st' n)) /\ ans_ok (n_der st') (n_ans st').
+Proof.
+  intros st st'. destruct (teardown_releases_all st (run_inv ls)) as [A B]. split; auto. apply (i_ans _ A).
 Qed.
 
 End Net.
